@@ -237,6 +237,21 @@ func updateChildren(client *dynamicclientset.ResourceClient, updateStrategy Chil
 
 	for name, obj := range desired {
 		if ssaOptions.Strategy == ApplyStrategyServerSideApply {
+			// We always claim everything we create. With server-side apply the
+			// controller reference has to be part of the applied configuration.
+			controllerRef := MakeControllerRef(parent)
+			ownerRefs := obj.GetOwnerReferences()
+			hasControllerRef := false
+			for _, ref := range ownerRefs {
+				if ref.UID == controllerRef.UID {
+					hasControllerRef = true
+					break
+				}
+			}
+			if !hasControllerRef {
+				obj.SetOwnerReferences(append(ownerRefs, *controllerRef))
+			}
+
 			data, err := json.Marshal(obj)
 			if err != nil {
 				errs = append(errs, err)
